@@ -2,7 +2,7 @@ SPECIFICATION TraceSpec
 CONSTANTS FailFastOn = "anyerr"
  FlattenPrefer = "real"
  SkipCancelled = TRUE
- CancelDrains = "either"
+ CancelDrains = "no"
  ExtraWorkers = 0
 CONSTRAINT Mark
 POSTCONDITION Report
